@@ -137,6 +137,19 @@ let handle op args = match op, args with
   | "serial", _ -> "ok"
   | "blk", _ :: ops -> "ok " ^ string_of_int (List.length ops)
   | "pow", _ :: _ :: _ :: _ :: ops -> "ok " ^ string_of_int (List.length ops)
+  | "multi", workers :: seed :: _ :: rounds :: callers ->
+    (* every caller's verdict is the sequential verdict of its own payloads (C16_multi_client_verdict) *)
+    let one sd =
+      let (spec, dup) = (match String.split_on_char ',' sd with
+        | [sp; d] -> ((if sp = "-" then "" else sp), d = "1") | [sp] -> ((if sp = "-" then "" else sp), false)
+        | _ -> failwith "bad caller") in
+      let tl = tasks_of_spec spec dup in
+      let map = Array.of_list (List.map snd tl) in
+      let has_dup = dup && List.exists (fun (v, _) -> v) tl in
+      ignore workers; ignore seed;
+      verdict_str map (seq_verdict (mk_tasks O O (List.map fst tl)) has_dup) in
+    let row = String.concat "," (List.map one callers) in
+    String.concat ";" (List.init (int_of_string rounds) (fun _ -> row))
   | "check", workers :: seed :: _ :: spec :: dup :: stopmode :: rounds :: rest ->
     let w = max 1 (int_of_string workers) in
     (* queue capacity = upper_power_of_two(maxATVs + maxVTBs + maxVbkBlocks) *)
